@@ -55,14 +55,16 @@ def render_modfile(scratch):
     return os.path.join(scratch, "go.mod")
 
 
-def build(scratch, pkg, race=False, extra_tags=""):
+def build(scratch, pkg, race=False, extra_tags="", fuzz=False):
     modfile = render_modfile(scratch)
-    out = os.path.join(scratch, pkg.replace("/", "_") + (".race" if race else "") + ".test")
+    out = os.path.join(scratch, pkg.replace("/", "_") + (".race" if race else "") + (".fuzz" if fuzz else "") + ".test")
     if os.path.exists(out):
         return out
     cmd = ["go", "test", "-c", "-tags", "verif" + extra_tags, "-modfile=" + modfile, "-o", out]
     if race:
         cmd.append("-race")
+    if fuzz:
+        cmd.append("-fuzz=Fuzz")  # coverage instrumentation for native fuzzing
     cmd.append("./" + pkg)
     t0 = time.time()
     p = subprocess.run(cmd, cwd=HARNESS, env=env_base(), stdout=subprocess.PIPE, stderr=subprocess.STDOUT, text=True)
@@ -139,6 +141,53 @@ def wait_shards(procs, deadline):
         logf.close()
         results[sh] = rc
     return results
+
+
+def run_fuzz_target(binary, target, budget, parallel, pid, scratch, outdir):
+    """Native go fuzzing of one target for `budget` seconds. The engine stops at the first crasher; a crasher is
+    re-run alone and only counts when it fails again (a worker killed for slowness under load is inconclusive)."""
+    work = os.path.join(scratch, "fuzz-" + target)
+    os.makedirs(os.path.join(work, "errs"), exist_ok=True)
+    e = env_base()
+    e.update({"VERIF_FUZZ_STDERR": os.path.join(work, "errs"), "VERIF_REPO": repo(), "VERIF_DIR": VERIF, "VERIF_SCRATCH_DIR": scratch})
+    deadline = time.time() + budget
+    execs, inconclusive, rounds = 0, 0, 0
+    cdir = os.path.join(work, "testdata", "fuzz", target)
+    while time.time() < deadline - 10 and rounds < 50:
+        rounds += 1
+        remaining = int(deadline - time.time())
+        cmd = [binary, "-test.run=^$", "-test.fuzz=^%s$" % target, "-test.fuzztime=%ds" % remaining, "-test.fuzzcachedir=" + os.path.join(work, "cache"),
+               "-test.parallel=%d" % parallel, "-test.timeout=%ds" % (remaining + 120)]
+        p = subprocess.run(cmd, cwd=work, env=e, stdout=subprocess.PIPE, stderr=subprocess.STDOUT, text=True)
+        m = re.findall(r"execs: (\d+)", p.stdout)
+        if m:
+            execs += int(m[-1])
+        if p.returncode == 0:
+            break
+        crashers = sorted(glob.glob(os.path.join(cdir, "*"))) if os.path.isdir(cdir) else []
+        if not crashers:
+            return execs, inconclusive, "fuzz engine failed without a crasher: " + p.stdout[-400:]
+        for c in crashers:
+            name = os.path.basename(c)
+            fails = 0
+            last = ""
+            for _ in range(2):
+                try:
+                    r = subprocess.run([binary, "-test.run=^%s/%s$" % (target, name), "-test.timeout=180s"], cwd=work, env=e, stdout=subprocess.PIPE, stderr=subprocess.STDOUT, text=True, timeout=240)
+                    rc, last = r.returncode, r.stdout
+                except subprocess.TimeoutExpired:
+                    rc, last = 1, "timed out after 240 s when re-run alone"
+                if rc != 0:
+                    fails += 1
+            if fails == 2:
+                v = {"property": pid, "kind": "fuzz-crasher-" + target, "message": "native fuzzing of %s: input fails when re-run alone: %s" % (target, last[-1500:]),
+                     "case": {"fuzz_target": target, "corpus_file": open(c, errors="replace").read()[:200000]}}
+                json.dump(v, open(os.path.join(outdir, "violation-%s-fuzz-%s-%s.json" % (pid, target, name)), "w"))
+                return execs, inconclusive, None
+            inconclusive += 1
+            os.makedirs(os.path.join(work, "inconclusive"), exist_ok=True)
+            shutil.move(c, os.path.join(work, "inconclusive", name))
+    return execs, inconclusive, None
 
 
 def merge(pid, spec, tier, seed, outdir, results, wall):
@@ -267,6 +316,18 @@ def cmd_check(pid, tier, replay=None):
         for pi, procs, deadline in started:
             for sh, rc in wait_shards(procs, deadline).items():
                 results["%d.%d" % (pi, sh)] = rc
+        fuzz_info = {}
+        fz = spec.get("fuzz", {}).get(tier)
+        if fz and not replay:
+            fbin = build(scratch, spec["fuzz"]["pkg"], fuzz=True)
+            if fbin is None:
+                return 2
+            for target in fz["targets"]:
+                ex, inc, err = run_fuzz_target(fbin, target, fz["seconds"], fz.get("parallel", 12), pid, scratch, outdir)
+                fuzz_info[target] = {"execs": ex, "crashers_not_reproducible_alone": inc, "seconds": fz["seconds"]}
+                if err:
+                    print("HARNESS-ERROR: " + err)
+                    return 2
         wall = time.time() - t0
         # a race-detector report fails the binary without the property noticing: surface it as the violation
         for lf in sorted(glob.glob(os.path.join(outdir, "log-*.txt"))):
@@ -283,6 +344,8 @@ def cmd_check(pid, tier, replay=None):
             for sh, rc in bad.items():
                 infra.append("shard %s exited %s without leaving a violation file:\n%s" % (sh, rc, tail(os.path.join(outdir, "log-%s.txt" % sh))))
         extra = {}
+        if fuzz_info:
+            extra["native_fuzz"] = fuzz_info
         if spec.get("rapid", True) and not replay and not viols and not infra and tot["rapid_passed"] < want:
             infra.append("rapid reported %d passed tests, %d requested (truncated run)" % (tot["rapid_passed"], want))
         if not replay and os.environ.get("VERIF_NO_EVIDENCE") != "1":
